@@ -1,6 +1,6 @@
 (** C08 — Shutdown always completes, releases everything and never panics. *)
-From AnemoVerif Require Import Base Shutdown.
-From AnemoVerif.Proofs Require Import Shutdown_proofs.
+From AnemoVerif Require Import Base Shutdown ShutdownTrace.
+From AnemoVerif.Proofs Require Import Shutdown_proofs ShutdownTrace_proofs.
 
 Definition no_teardown (ls : list label) : bool := forallb (fun l => negb (teardown_label l)) ls.
 
@@ -63,8 +63,30 @@ Theorem C08_cleanup_reports_leftovers : forall s s',
   step s Assert = Some s' -> entries s' = [] /\ lost_events s' = (lost_events s + length (entries s))%nat.
 Proof. exact cleanup_reports_leftovers. Qed.
 
+(** Trace acceptance (the executed tie of this model): a trace of manager / handler / API events
+    that [ShutdownTrace.trun] accepts from the initial state is a run of the model with one label
+    per event, so the state it ends in is reachable and everything above applies to it; a
+    request stream accepted after the endpoint was closed (seen in the implementation's traces)
+    is one that had arrived before ([StreamArrive] is impossible afterwards). *)
+Theorem C08_accepted_trace_is_model_run : forall es s',
+  trun init 0 es = (s', None) ->
+  run init (labels_of init es) = Some s' /\ length (labels_of init es) = length es.
+Proof. intros es s'. exact (trun_is_run es init 0 s'). Qed.
+
+Theorem C08_nothing_arrives_after_close : forall s h,
+  endpoint_closed s = true -> step s (StreamArrive h) = None.
+Proof. exact nothing_arrives_after_close. Qed.
+
+Example C08_late_request_ex :   (* a stream that arrived before the close is accepted after it, then dropped with the handler *)
+  match run init [Incoming; InboundDone true 7; StreamArrive 0; Submit CShutdown; Process; ReqStart 0; AbortPending;
+                  HExit 0; HAbort 0; Join 0; AllJoined; Assert; Finish] with
+  | Some s => ph s = MDone /\ entries s = [] /\ lost_events s = 1%nat
+  | None => False
+  end.
+Proof. vm_compute. repeat split. Qed.
+
 Example C08_ex :
-  match run init [Incoming; InboundDone true 7; ReqStart 0; Submit CConnect; Process; Submit CShutdown; Submit CShutdown;
+  match run init [Incoming; InboundDone true 7; StreamArrive 0; ReqStart 0; Submit CConnect; Process; Submit CShutdown; Submit CShutdown;
                   Process; AbortPending; HExit 0; ReqEnd 0; HAbort 0; Join 0; AllJoined; Assert; Finish; Submit CConnect] with
   | Some s => ph s = MDone /\ entries s = [] /\ calls s = [Answered false; Answered true; Answered false; Answered false]
   | None => False
@@ -81,3 +103,5 @@ Print Assumptions C08_at_most_one_shutdown_accepted.
 Print Assumptions C08_teardown_never_panics.
 Print Assumptions C08_former_teardown_witnesses.
 Print Assumptions C08_cleanup_reports_leftovers.
+Print Assumptions C08_accepted_trace_is_model_run.
+Print Assumptions C08_nothing_arrives_after_close.
